@@ -109,6 +109,171 @@ def gen_history(ctx, rng):
     return dict(kind="history", space=space, dicts=dicts, conds=conds, ops=ops)
 
 
+def gen_shared(ctx, rng):
+    """histories in which several conditions use ONE sampler object (plain / static / static with a finite
+    resample interval); by design of the library they then share its cached points"""
+    h = gen_history(ctx, rng)
+    space = h["space"]
+    nS = rng.randint(1, 2)
+    samplers = []
+    for sid in range(nS):
+        kind = rng.choice(["plain", "static", "static", "interval"])
+        samplers.append(dict(sid=sid, static=kind != "plain", interval=rng.choice([1, 2, 3]) if kind == "interval" else None,
+                             n=rng.choice([1, 2, 3])))
+    for c in h["conds"]:
+        sid = 0 if rng.random() < 0.7 else rng.randrange(nS)
+        c.update(sid=sid, space=space, n=samplers[sid]["n"], static=samplers[sid]["static"], share={})
+        # the residual was generated for this condition's own variable order: names only, so any order is fine
+    ops = []
+    for o in h["ops"]:
+        if o["op"] in ("s", "f"):
+            continue
+        c = h["conds"][o["cid"] - 1]
+        ops.append(dict(op=o["op"], cid=o["cid"], fresh=gen_rows(rng, c["n"], dim_of(space))))
+    h.update(kind="shared", samplers=samplers, ops=ops)
+    return h
+
+
+def run_shared(case, only=None, given=None):
+    """company run (only=None), or condition `only` alone on a PRIVATE sampler that hands it the point sets
+    `given` (one per operation of the condition, None = the operation drew nothing in company)"""
+    C = classes()
+    tp, torch = C["tp"], C["torch"]
+    NextSampler = _next_sampler_cls()
+    sink = []
+    pydicts, originals = [], []
+    for d in case["dicts"]:
+        fns = {}
+        for spec in d:
+            if spec.get("same_as"):
+                di, fi = spec["same_as"]
+                fns[spec["name"]] = pydicts[di][case["dicts"][di][fi]["name"]]
+            else:
+                fns[spec["name"]] = build_fn(C, spec, sink)
+        pydicts.append(fns)
+        originals.append(dict(fns))
+    inners, outers, recs = {}, {}, {}
+
+    def sampler_of(c):
+        key = c["sid"] if only is None else ("private", c["cid"])
+        if key not in outers:
+            sp = case["samplers"][c["sid"]]
+            inner = NextSampler(c["space"], sp["n"])
+            if only is None:
+                outer = inner.make_static(sp["interval"] if sp["interval"] is not None else math.inf) if sp["static"] else inner
+            else:
+                # alone: static exactly when the shared sampler never resamples (that is when data is pre-evaluated)
+                outer = inner.make_static() if (sp["static"] and sp["interval"] is None) else inner
+            inners[key], outers[key], recs[key] = inner, outer, cc.Recorder(outer)
+        return key
+    state, outs, used = {}, [], []
+    k_given = 0
+    for op in case["ops"]:
+        if only is not None and op["cid"] != only:
+            continue
+        c = case["conds"][op["cid"] - 1]
+        key = sampler_of(c)
+        fresh = prow(op["fresh"])
+        if given is not None:
+            if given[k_given] is not None:
+                fresh = given[k_given]
+            k_given += 1
+        inners[key].next_rows = fresh
+        before = len(recs[key].calls)
+        try:
+            if op["op"] == "c":
+                net = c["net"]
+                model = C["PolyModel"](net["in"], net["out"], [pe_from_json(b) for b in net["body"]])
+                resid = build_fn(C, c["resid"], sink)
+                kw = {}
+                if c["dref"] != 0:
+                    kw["data_functions"] = pydicts[c["dref"]]
+                if c["param"]:
+                    pn, pv = c["param"][0]
+                    kw["parameter"] = tp.models.Parameter([float(F(v)) for v in pv], mk_space([[pn, len(pv)]]))
+                Cls = tp.conditions.PINNCondition if c["cls"] == "pinn" else tp.conditions.MeanCondition
+                state[op["cid"]] = Cls(model, outers[key], resid, **kw)
+                outs.append((op["cid"], "-"))
+            else:
+                outs.append((op["cid"], float(state[op["cid"]].forward())))
+        except Exception as e:  # noqa
+            outs.append((op["cid"], c04.classify_exc(e)))
+        new = recs[key].calls[before:]
+        used.append((op["cid"], new[0]["rows"] if new else None, [n_["rows"] for n_ in new]))
+        del sink[:]
+    report = [dict(keys=list(d.keys()), same_objects=all(d.get(k) is o[k] for k in o)) for d, o in zip(pydicts, originals)]
+    return dict(outs=outs, used=used, dicts=report)
+
+
+def line_shared(case):
+    ops = [f"m {sp['sid']} {1 if sp['static'] else 0} {'inf' if sp['interval'] is None else sp['interval']}" for sp in case["samplers"]]
+    for op in case["ops"]:
+        c = case["conds"][op["cid"] - 1]
+        if op["op"] == "c":
+            r = c["resid"]
+            resid = cc.tok_ufun(dict(params=r["params"], defaults=[(n, [F(v) for v in vs]) for n, vs in r["defaults"]],
+                                     body=[pe_from_json(b) for b in r["body"]]))
+            err, red = ("sq", "mean") if c["cls"] == "pinn" else ("id", "mean")
+            ops.append(" ".join(["c", str(c["cid"]), str(c["dref"]), tok_space(c["space"]), net_tok(c["net"]), resid,
+                                 tok_named([(n, [F(v) for v in vs]) for n, vs in c["param"]]), err, red, str(c["sid"]),
+                                 tok_table(prow(op["fresh"]))]))
+        else:
+            ops.append(f"e {op['cid']} {tok_table(prow(op['fresh']))}")
+    dicts = lst(case["dicts"], lambda d: lst(d, lambda f: f"{f['name']} {'wrapped' if f.get('wrap') else 'raw'} {fn_tok(f)}"))
+    return f"runs {dicts} {lst(ops)}"
+
+
+def judge_shared(rep, case, res, alone, reply):
+    by_sid = {}
+    for c in case["conds"]:
+        by_sid.setdefault(c["sid"], []).append(c["cid"])
+    for sp in case["samplers"]:
+        kind = "plain" if not sp["static"] else "static" if sp["interval"] is None else "static-interval"
+        if len(by_sid.get(sp["sid"], [])) >= 2:
+            rep.count("shared-sampler-object:" + kind)
+    for cid, o in res["outs"]:
+        if isinstance(o, str) and o != "-":
+            rep.fail(f"condition {cid} raised: {o}", case)
+    # (1) one never-resampling static sampler: every condition on it sees the same points, every time
+    for sp in case["samplers"]:
+        if sp["static"] and sp["interval"] is None:
+            sets = [u for (cid, u, _) in res["used"] if u is not None and case["conds"][cid - 1]["sid"] == sp["sid"]]
+            if any(u != sets[0] for u in sets):
+                rep.fail(f"conditions on the shared static sampler {sp['sid']} were handed different point sets", case)
+    # (2) isolation GIVEN the points: alone, on a private sampler that hands out the same point sets, every condition
+    #     returns bit-identical losses
+    for c in case["conds"]:
+        mine = [o for k, o in res["outs"] if k == c["cid"]]
+        al = [o for k, o in alone[c["cid"]]["outs"]]
+        if mine != al:
+            rep.fail(f"condition {c['cid']} on shared sampler {c['sid']} returns {mine} in company but {al} when it is alone and its "
+                     f"private sampler hands it the very same point sets", case, detail=dict(cid=c["cid"], company=mine, alone=al))
+    for i, (d, spec) in enumerate(zip(res["dicts"], case["dicts"])):
+        if d["keys"] != [f["name"] for f in spec] or not d["same_objects"]:
+            rep.fail(f"user dict {i} was modified", case, detail=d)
+    # (3) correspondence: outputs, dict state, and the model's own alone-replay
+    if reply is None or reply.startswith("bad-op"):
+        rep.disagree("shared-sampler history: model rejects", case, res["outs"], reply)
+        return
+    outs, tags, alone_m = reply.split(" | ")
+    mo = outs.split()
+    if len(mo) != len(res["outs"]):
+        rep.disagree("shared-sampler history: number of outputs", case, res["outs"], reply)
+        return
+    for (cid, o), m in zip(res["outs"], mo):
+        ok = (o == "-" and m == "-") or (isinstance(o, float) and not m.startswith("err") and m not in ("-", "none")
+                                         and close(o, float(F(m)), 1e-9, 1e-12)) or (isinstance(o, str) and o == m)
+        if not ok:
+            rep.disagree("shared-sampler history outputs: drivers/C14.lean `runs` vs the real conditions", case, res["outs"], reply)
+            return
+    per = {}
+    for cid, m in zip([c for c, _ in res["outs"]], mo):
+        per.setdefault(cid, []).append(m)
+    want_alone = " ".join(f"{cid}:{','.join(ms)}" for cid, ms in sorted(per.items(), key=lambda t: [c for c, _ in res["outs"]].index(t[0])))
+    if alone_m.strip() != want_alone.strip():
+        rep.disagree("shared-sampler history: the model's alone-replay differs from its company run (isolation_shared)", case, want_alone, alone_m)
+
+
 def _next_sampler_cls():
     C = classes()
     if "NextSampler" not in C:
@@ -337,6 +502,8 @@ def judge_deeponet(rep, case, res, alone, replies):
 def gen_cases(ctx):
     rng = ctx.rng
     cases = [gen_history(ctx, rng) for _ in range(ctx.scale(260, 2800))]
+    for _ in range(ctx.scale(90, 1000)):
+        cases.append(gen_shared(ctx, rng))
     for _ in range(ctx.scale(40, 450)):
         while True:
             d = c04.gen_don(ctx, rng)
@@ -354,7 +521,7 @@ def gen_cases(ctx):
 
 def key_of(case):
     c = dict(case)
-    if c["kind"] == "history":
+    if c["kind"] in ("history", "shared"):
         c["ops"] = [(o["op"], o.get("cid", o.get("cids"))) for o in c["ops"]]
         return c
     return c04.key_of(c)
@@ -384,7 +551,17 @@ def run(ctx, rep, cases=None):
             if l is not None:
                 owner.append((("don", i), j))
                 plines.append(l)
+    shs = [c for c in cases if c["kind"] == "shared"]
+    sres = []
+    for c in shs:
+        r = run_shared(c)
+        al = {}
+        for k in c["conds"]:
+            given = [u for (cid, u, _) in r["used"] if cid == k["cid"]]
+            al[k["cid"]] = run_shared(c, only=k["cid"], given=given)
+        sres.append((r, al))
     try:
+        sreplies = common.run_driver("C14", [line_shared(c) for c in shs])
         replies = common.run_driver("C14", [line_history(c) for c in hist])
         preplies = common.run_driver("C14", plines, driver="C04")
     except common.DriverFailure:
@@ -400,6 +577,10 @@ def run(ctx, rep, cases=None):
                  sample=dict(conditions=[dict(cid=k["cid"], dict=k["dref"], static=k["static"], cls=k["cls"]) for k in c["conds"]],
                              ops=[(o["op"], o.get("cid", o.get("cids"))) for o in c["ops"]], implementation=r["outs"], model=m), kind="history")
         judge_history(rep, c, r, al, m)
+    for c, (r, al), m in zip(shs, sres, sreplies):
+        rep.case(key_of(c), True, sample=dict(samplers=c["samplers"], conditions=[dict(cid=k["cid"], sampler=k["sid"], dict=k["dref"]) for k in c["conds"]],
+                                              ops=[(o["op"], o["cid"]) for o in c["ops"]], implementation=r["outs"], model=m), kind="shared")
+        judge_shared(rep, c, r, al, m)
     per_case = {}
     for (i, j), rp in zip(owner, preplies):
         per_case.setdefault(i, {})[j] = rp
